@@ -32,12 +32,17 @@ class StubForcing:
 class StubGrid:
     """land-free rectangular grid with a prescribed (possibly anisotropic) metric"""
 
-    def __init__(self, xmin, xmax, ymin, ymax, dx, dy, h=100.0):
+    def __init__(self, xmin, xmax, ymin, ymax, dx, dy, h=100.0, varying=False):
         self.xmin, self.xmax, self.ymin, self.ymax = float(xmin), float(xmax), float(ymin), float(ymax)
-        self.dx, self.dy, self.h = dx, dy, h
+        self.dx, self.dy, self.h, self.varying = dx, dy, h, varying
+
+    def factor(self, X):
+        """metric factor of the cell (1 or 2) when the metric varies from cell to cell"""
+        return (1 + (np.floor(np.asarray(X, dtype=float)).astype(int) % 2)) if self.varying else np.ones(len(X), dtype=int)
 
     def metric(self, X, Y):
-        return np.full(len(X), self.dx, dtype=float), np.full(len(X), self.dy, dtype=float)
+        f = self.factor(X)
+        return self.dx * f.astype(float), self.dy * f.astype(float)
 
     def depth(self, X, Y):
         return np.full(len(X), self.h, dtype=float)
